@@ -280,6 +280,32 @@ def rule_r4(chk, prog, effects):
                               'directory (binary copy, candidate file) '
                               'stays behind after an interrupt',
                               loc=m.loc(c), nontrivial=True)
+                elif call_name(c) == 'os.killpg' and tgt.startswith(
+                        'os.getpgid('):
+                    # the group of a child: ddSMT's own group unless every
+                    # way the child is started puts it into a new one
+                    fn_ = _fn(c)
+                    spawns = [p_ for p_ in (calls_in(fn_) if fn_ is not None
+                                            else [])
+                              if (call_name(p_) or '').endswith('Popen')]
+                    own_group = [p_ for p_ in spawns
+                                 if not (is_const(kw(p_, 'start_new_session'),
+                                                  True)
+                                         or 'setsid' in unparse(
+                                             kw(p_, 'preexec_fn') or
+                                             ast.Constant(value=None))
+                                         or 'setpgrp' in unparse(
+                                             kw(p_, 'preexec_fn') or
+                                             ast.Constant(value=None)))]
+                    chk.check('C06.R4', m.name, c, bool(spawns)
+                              and not own_group,
+                              f'{unparse(c)[:60]} signals the process group '
+                              'of the child, but '
+                              f'{len(own_group)} of {len(spawns)} spawn '
+                              'path(s) leave the child in ddSMT\'s own '
+                              'group: the signal kills ddSMT itself (no '
+                              'clean-up, no diagnostic, exit by signal)',
+                              loc=m.loc(c), nontrivial=True)
                 elif not isinstance(c.args[0], (ast.Name, ast.Attribute)):
                     raise AnalysisError(
                         f'{m.loc(c)}: target of {call_name(c)} not '
